@@ -105,6 +105,7 @@ def field(p, I, st, ma, dotted, ty=RM):
 def _front(a):
     p = _P
     I = absint.Interp(p)
+    I.unroll = 16         # small fixed loops (e.g. an address assembled bit by bit) are interpreted exactly
     ov = machine_overrides(p, a, "Running", False, Opaque("IR"), Opaque("LBR"))
     st, ma, r = run_edge(p, I, ov)
     bad = [e for e in I.events if e.kind in BAD_EVENTS]
